@@ -741,17 +741,15 @@ func byteOrderPut(width int) stdSpec {
 		name := vc.heapArr("Int")
 		oldH := vc.heapGet(st, name)
 		inner := vc.declareConst("bo_arr", "(Array Int Int)")
+		_, newH := vc.heapStoreRef(st, name, fmt.Sprintf("(s_arr %s)", bs), inner)
+		// everything is stated over element terms at(heap, slice, index): the bytes written, and the frame
 		var outs []string
 		for j := 0; j < width; j++ {
-			e := fmt.Sprintf("(select %s (+ (s_off %s) %d))", inner, bs, j)
+			e := vc.at("Int", newH, bs, fmt.Sprintf("%d", j))
 			outs = append(outs, e)
 			vc.assume(st.reach, fmt.Sprintf("(and (<= 0 %s) (<= %s 255))", e, e))
 		}
-		vc.assume(st.reach, fmt.Sprintf("(forall ((q Int)) (! (=> (or (< q (s_off %s)) (>= q (+ (s_off %s) %d))) (= (select %s q) (select (select %s (s_arr %s)) q))) :pattern ((select %s q))))",
-			bs, bs, width, inner, oldH, bs, inner))
 		vc.assume(st.reach, fmt.Sprintf("(= (bo.u%d %s) %s)", width*8, strings.Join(outs, " "), v.S))
-		_, newH := vc.heapStoreRef(st, name, fmt.Sprintf("(s_arr %s)", bs), inner)
-		// element view of the update (at-terms are what the frame axioms and invariants talk about)
 		an := vc.at("Int", newH, "s", "j")
 		ao := vc.at("Int", oldH, "s", "j")
 		vc.emit(fmt.Sprintf("(assert (forall ((s Slice) (j Int)) (! (=> (and (= (s_arr s) (s_arr %s)) (or (< (+ (s_off s) j) (s_off %s)) (>= (+ (s_off s) j) (+ (s_off %s) %d)))) (= %s %s)) :pattern (%s))))",
